@@ -65,6 +65,23 @@ def _borrow_r11(chk: Check, proj: Project, w) -> None:
                    f"`{short(c.func)}(...)` lets a receiver's exception propagate" if okc else
                    f"`{short(c.func)}(...)` swallows every receiver's exception: user code (a receiver of the signal) fails during the render and the caller is never told")
     chk.floor("S3f", n, 1)
+    chk.rule("S3g", "user code (a node's render, a filter expression's resolve) is never run as the element of a GENERATOR expression: PEP 479 turns a StopIteration raised inside a generator into RuntimeError('generator raised StopIteration'), so the exception the caller receives is no longer the one the user code raised (a list comprehension or a loop lets it through unchanged)")
+    USER = {"render", "render_annotated", "resolve", "render_value_in_context"}
+
+    def _gens(tree_: ast.AST):
+        return [g for g in ast.walk(tree_) if isinstance(g, ast.GeneratorExp) and any(isinstance(c, ast.Call) and isinstance(c.func, ast.Attribute) and c.func.attr in USER for c in ast.walk(g.elt))]
+
+    if len(_gens(ast.parse("def f(ns, c):\n    return ''.join(str(n.render(c)) for n in ns)\n"))) != 1:
+        raise AnalysisError("C06-S3g positive fixture no longer matches: rule is broken")
+    ng = 0
+    for m2, q, fn in proj.all_funcs():
+        for g in _gens(fn):
+            if any(isinstance(a, (ast.FunctionDef, ast.AsyncFunctionDef)) and a is not fn for a in ancestors(g) if a is not fn) and False:
+                continue
+            ng += 1
+            chk.violated("S3g", f"{m2.name.replace('django_components.', '')}:{q}:{short(g, 60)}:user-code-in-generator", m2.loc(g),
+                         f"`{short(g)}` runs user code as the element of a generator expression: a filter / tag that raises StopIteration (`next(iter(empty))`) reaches the caller as RuntimeError('generator raised StopIteration') - the original exception type is replaced")
+    chk.holds("S3g", "fixture:user-code-in-generator", "fixture.py:2", f"positive fixture matched (rule is alive); {ng} such generator(s) on the tree", nontrivial=False)
 
 
 def run(chk: Check, proj: Project) -> None:
